@@ -11,7 +11,7 @@ RULE = ("Hypothesis-generated histories on one graph object: a non-empty graph (
         "vertices, attribute-carrying edges, arbitrary node labels) followed by a sequence of percolate(phi) calls "
         "(phi in {0,1} or generated) interleaved with count-preserving in-place rewirings; seeded RNG. Exact oracles at "
         "phi in {0,1}, lattice/bounds and untouched input for all phi. Plus seeded chi-square tests of the "
-        "Binomial(M,phi) law on stars (M in 4..12, phi in {0.2,0.35,0.7}). Non-trivial = graph with >= 3 edges and some "
+        "Binomial(M,phi) law on stars (M in 1..12, phi in {0.05,0.08,0.2,0.35,0.7,0.93}). Non-trivial = graph with >= 3 edges and some "
         "call with 0<phi<1; distinct = canonical JSON")
 ASSUMPTIONS = ["law clause decided statistically (p<1e-9) on 4000 (quick) / 40000 seeded runs per star"]
 BUDGET = {"quick": (16, 300), "thorough": (16, 12000)}
@@ -47,7 +47,7 @@ def strategy(tier):
 def enumerated(tier, seed):
     out = []
     T = 4000 if tier == "quick" else 40000
-    for i, (M, phi) in enumerate([(4, 0.2), (7, 0.35), (12, 0.7)] + ([(5, 0.7), (9, 0.2), (10, 0.35)] if tier == "thorough" else [])):
+    for i, (M, phi) in enumerate([(4, 0.2), (7, 0.35), (12, 0.7), (1, 0.08), (3, 0.05), (2, 0.93)] + ([(5, 0.7), (9, 0.2), (10, 0.35)] if tier == "thorough" else [])):
         out.append({"stat": True, "M": M, "phi": phi, "T": T, "seed": seed * 100 + i})
     return out
 
